@@ -561,7 +561,11 @@ func (e *Enc) load(st *State, loc *Loc) *smt.Term {
 				l := ls[i]
 				hn := fieldHeap(loc.Root, joinPath(loc.Path, l.Path))
 				h := e.heap(st, hn, heapSort(sortOf(l.Type)))
-				parts = append(parts, e.toBits(c.Select(c.Select(h, obj), idx)))
+				lv := c.Select(c.Select(h, obj), idx)
+				if e.baseSliceHeap(hn) {
+					lv = e.mkSlice(e.slObj(lv), e.bv64(0), e.slLen(lv), e.slCap(lv))
+				}
+				parts = append(parts, e.toBits(lv))
 			}
 			if len(parts) == 0 {
 				return c.LitU(0, 8)
